@@ -296,7 +296,7 @@ def _bucket(case, v):
 
 
 LANES = [
-    Lane(name="trees", run_case=run_tree, strategy=case_st, budget={"quick": 1600, "thorough": 30000},
+    Lane(name="trees", wall_limit=30.0, run_case=run_tree, strategy=case_st, budget={"quick": 1600, "thorough": 30000},
          shards={"quick": 16, "thorough": 64}, nontrivial=_nontrivial, labels=_labels, bucket=_bucket,
          rule="one generated tree + 4-14 generated requests + completeness requests for every servable inside file"),
 ]
